@@ -417,6 +417,20 @@ func (f *fnTrans) binop(ins *ssa.BinOp) {
 				}
 			}
 		}
+		// x & m for a contiguous run of ones m = 2^hi - 2^lo
+		for _, pair := range [][2]ssa.Value{{ins.X, ins.Y}, {ins.Y, ins.X}} {
+			if m, ok := constInt(pair[1]); ok && m.Sign() > 0 {
+				lo := int(m.TrailingZeroBits())
+				run := new(big.Int).Rsh(m, uint(lo))
+				r1 := new(big.Int).Add(run, big.NewInt(1))
+				if new(big.Int).And(r1, run).Sign() == 0 {
+					w := run.BitLen()
+					v := f.val(pair[0])
+					f.vals[ins] = Mul(App("mod", SInt, App("div", SInt, v, IntLitStr(pow2(lo))), IntLitStr(pow2(w))), IntLitStr(pow2(lo)))
+					return
+				}
+			}
+		}
 		f.bitop(ins, x, y)
 	case token.OR, token.XOR, token.AND_NOT:
 		f.bitop(ins, x, y)
